@@ -153,7 +153,11 @@ def gen_graph(rng, flavour=None):
 def run_impl(case):
     """-> list of (effective case of the step, dict(status, N, grad, hess, slots, moved_ok, detail, ...)), one per optimizer call"""
     rng = random.Random(case['dx_seed'])
-    vs = [Vertex(i, make_pose(rng, k), fixed=f) for i, k, f in zip(case['ids'], case['kinds'], case['fixed'])]
+    def mkv(i, k, f):
+        # the fixed flag as callers write it: keyword or third POSITIONAL argument; True, numpy.bool_ or 1
+        fl = rng.choice([True, np.bool_(True), 1]) if f else rng.choice([False, np.bool_(False), 0])
+        return Vertex(i, make_pose(rng, k), fl) if rng.random() < 0.5 else Vertex(i, make_pose(rng, k), fixed=fl)
+    vs = [mkv(i, k, f) for i, k, f in zip(case['ids'], case['kinds'], case['fixed'])]
     real = {int(k): v for k, v in case.get('real', {}).items()}
     sc = 2.0 ** case.get('scale_pow', 0)
     es = []
@@ -178,23 +182,30 @@ def run_impl(case):
         return [(case, {'status': 4})]
     N = sum(DIMS[k] for k in case['kinds'])
     out = []
+    intended = [bool(f) for f in case['fixed']]        # the flags the CALLER set (the model is run with these, never with what the library reports)
     for st in range(case.get('steps', 1)):
         if st > 0 and case.get('release'):
-            held = [k for k, v in enumerate(vs) if v.fixed]
+            held = [k for k, f in enumerate(intended) if f]
             if held:
-                vs[rng.choice(held)].fixed = False      # a vertex held in the earlier pass is released
+                k_ = rng.choice(held)
+                vs[k_].fixed = False      # a vertex held in the earlier pass is released
+                intended[k_] = False
         if st > 0 and case.get('fix_later'):
-            free_now = [k for k, v in enumerate(vs) if not v.fixed]
+            free_now = [k for k, f in enumerate(intended) if not f]
             if free_now:
-                vs[rng.choice(free_now)].fixed = True
+                k_ = rng.choice(free_now)
+                vs[k_].fixed = True
+                intended[k_] = True
         ffp = case['ffp'] if st == 0 else case.get('ffp2', False)
+        if ffp:
+            intended[0] = True          # fix_first_pose: the first vertex of the list, from now on
         eff = []
         for j, (vids, err, om, jacs) in enumerate(case['edges']):
             if j in real:
                 pa, pb = np.array(vs[real[j]['a']].pose), np.array(vs[real[j]['b']].pose)
                 err = [int(x) for x in (pb - pa - np.array(real[j]['z'], dtype=np.float64))]
             eff.append((vids, err, om, jacs))
-        ecase = dict(case, fixed=[bool(v.fixed) for v in vs], ffp=ffp, edges=eff)
+        ecase = dict(case, fixed=list(intended), ffp=ffp, edges=eff)
         dx = np.array([float(rng.randint(-2, 2)) for _ in range(N)])
         rec = {}
 
@@ -205,7 +216,7 @@ def run_impl(case):
             off_ = 0
             for k_, v_ in enumerate(vs):
                 d_ = DIMS[case['kinds'][k_]]
-                if v_.fixed:
+                if intended[k_]:
                     fx[off_:off_ + d_] = True
                 off_ += d_
             free = ~fx
@@ -221,7 +232,8 @@ def run_impl(case):
             g.optimize(tol=0.0, max_iter=1, fix_first_pose=ffp, verbose=False)
         finally:
             gmod.spsolve = orig
-        fixed_after = [bool(v.fixed) for v in vs]
+        fixed_after = list(intended)
+        flags_now = [bool(v.fixed) for v in vs]
         # expected motion: pose [+] dx-slice for the non-fixed vertices, bitwise; fixed vertices untouched
         off = 0
         moved_ok = True
@@ -243,6 +255,9 @@ def run_impl(case):
                 pa, pb = np.array(vs[real[j]['a']].pose), np.array(vs[real[j]['b']].pose)
                 err = [int(x) for x in (pb - pa - np.array(real[j]['z'], dtype=np.float64))]
             chi2_after += sum(err[i] * om[i][k] * err[k] for i in range(len(err)) for k in range(len(err)))
+        if flags_now != intended:
+            moved_ok = False
+            detail = 'fixed flags after the call are %s, the caller set %s (fix_first_pose=%s)' % (flags_now, intended, ffp)
         if 'A' not in rec:
             out.append((ecase, {'status': 9, 'detail': 'spsolve was not called (optimizer call %d)' % st}))
             break
